@@ -134,13 +134,19 @@ def sc_dense(V, P, cfg):
             for j in range(n - 1):
                 V.assume(W[j] <= W[j + 1], "eigh: ascending eigenvalues")
         factor.register("eig", (W, Q))
+    A_before = np.array(np.asarray(A), dtype=object, copy=True) if V.symbolic else None
+    B_before = np.array(np.asarray(B), dtype=object, copy=True) if (V.symbolic and gen) else None
     m.response()
     Wo, Qo = m.sig_out[0].state, m.sig_out[1].state
     obs = dict(n_out=int(np.size(Wo)))
     if P is not None:
         Wo_, Qo_ = np.asarray(Wo), np.asarray(Qo)
         P.holds("complete-spectrum", Wo_.shape == (n,) and Qo_.shape == (n, n), kind="shape")
-        Bm = np.asarray(B) if gen else np.eye(n, dtype=int).astype(object)
+        # the pencil that was handed in (a copy taken before the call: LAPACK work-space flags may destroy the arrays)
+        P.arrays_eq("A-unchanged-by-response", np.asarray(m.sig_in[0].state), A_before, kind="input-unchanged")
+        if gen:
+            P.arrays_eq("B-unchanged-by-response", np.asarray(m.sig_in[1].state), B_before, kind="input-unchanged")
+        Bm = B_before if gen else np.eye(n, dtype=int).astype(object)
         for i in range(n):
             qo = Qo_[:, i]
             # paired with an oracle pair (same eigenvalue, parallel vector, non-zero)
@@ -262,6 +268,10 @@ def replay(cfg, label, env, case):
             symm, gen = cfg["prob"].endswith("sym"), cfg["prob"].startswith("gen")
             A = _herm(V, "A", n) if cfg["prob"].endswith("herm") else _sym(V, "A", n, symm)
             B = (_pdiag(V, n) if cfg["prob"].endswith("herm") else _spd(V, n)) if gen else None
+            # column-major storage: the layout LAPACK can use without a copy; copies for the clauses
+            A = np.asfortranarray(A)
+            B = np.asfortranarray(B) if gen else None
+            A0, B0 = A.copy(), (B.copy() if gen else None)
             sigs = [pym.Signal("A", A)] + ([pym.Signal("B", B)] if gen else [])
             kw = {}
             if _sorting(cfg["sort"]) is not None:
@@ -269,8 +279,13 @@ def replay(cfg, label, env, case):
             m = pym.EigenSolve(sigs, **kw)
             m.response()
             W, Q = m.sig_out[0].state, m.sig_out[1].state
-            Bm = B if gen else np.eye(n)
+            Bm = B0 if gen else np.eye(n)
             bad = []
+            if not np.array_equal(A0, np.asarray(m.sig_in[0].state)):
+                bad.append("A-unchanged-by-response")
+            if gen and not np.array_equal(B0, np.asarray(m.sig_in[1].state)):
+                bad.append("B-unchanged-by-response")
+            A = A0
             for i in range(n):
                 if np.linalg.norm(A @ Q[:, i] - W[i] * (Bm @ Q[:, i])) > 1e-7 * max(1, np.linalg.norm(A)):
                     bad.append("pair[%d]" % i)
